@@ -369,8 +369,8 @@ where
                                     Some(expr) => arg_stack.push(expr),
                                     None => (),
                                 }
-                                op_stack.push(next_op);
                                 op_stack.push(stack_op);
+                                op_stack.push(next_op);
                                 while arg_stack.len() > 1 {
                                     let rhs = arg_stack.pop().unwrap();
                                     let lhs = arg_stack.pop().unwrap();
